@@ -273,6 +273,17 @@ func execC09RoundTrip(e c09Entry) *vstat.Outcome {
 		out.Violate("C09", "encode", "Bytes failed: %v", err)
 		return out
 	}
+	// other entries are encoded before this record is decoded: a record handed out
+	// by Bytes must stay intact (store writes of different keys overlap in production)
+	other := e
+	other.CreatedAt, other.ExpiredAt, other.StatusCode = e.CreatedAt+1, e.ExpiredAt+1, 418
+	other.Headers = append([]c09Header{{Name: "X-Other", Values: []string{"other entry"}}}, e.Headers...)
+	other.Raw = append([]byte("other body "), e.Raw...)
+	for i := 0; i < 2; i++ {
+		if _, err := other.build().Bytes(); err != nil {
+			break
+		}
+	}
 	dst := cache.NewHTTPCache()
 	if err := dst.FromBytes(data); err != nil {
 		out.Violate("C09", "roundtrip", "FromBytes(Bytes(entry)) failed: %v", err)
